@@ -641,7 +641,8 @@ class IntermediateCodeGen(AbstractCodeGen):
                 )
 
             else:
-                hexval = binval and hex(int(binval, 2))[2:] or ''
+                # four bits per hex digit, leading zeros included
+                hexval = binval and '%0*x' % ((len(binval) + 3) // 4, int(binval, 2)) or ''
                 outDict.update(value=hexval, format='hex')
 
         # quoted string
